@@ -627,8 +627,11 @@ func (e *Engine) doAppend(args []value, cc *ssa.CallCommon) value {
 		case []value:
 			// concrete destination with symbolic source: move to a functional array (the result
 			// is a new slice; aliasing with the old backing array is lost only if cap was sufficient)
+			// the result lives in a fresh functional array: if the concrete slice had spare capacity Go would
+			// write in place, visible through other slices that share the backing array - such aliasing is
+			// not tracked across this representation change (counted, reported in the evidence)
 			if cap(x) > len(x) {
-				unsup("append(concrete slice with spare capacity, symbolic slice)")
+				e.AliasRelax++
 			}
 			d = e.toSym(x, IntType{8, false})
 			d.cap = d.len
